@@ -16,7 +16,7 @@ reg('C04', 'exploration',
     'runtime monitor: real Block1014/block_1014 driven over enumerated write histories, output compared with a reference blocker',
     'Every residue (quick: 100, thorough: all 1012) x three internal situations x every next write length 0..3036 is '
     'executed on the real blocker under a line-step budget and its finalised file compared byte-for-byte with an '
-    'independent reference (position-coded content, and a second stream with stretches of the fill byte); plus single writes of 64 KiB .. 1 MiB including exact block fits, seeded long histories and the one-shot function. Held on the '
+    'independent reference (position-coded content, and a second stream with stretches of the fill byte); plus single writes of 64 KiB .. 1 MiB including exact block fits, data that looks like an already blocked file, pairs of blockers written with interleaved writes, seeded long histories and the one-shot function. Held on the '
     'executions produced; the residue x length sub-space is enumerated completely in the thorough tier.',
     'Trusts vmon/ref/blocking.py (validated against the mciipm docstring example) and io.BytesIO.')
 
@@ -34,7 +34,7 @@ reg('C03', 'exploration',
     'Every record length 1..6000 (single-record files, blocked and unblocked, class and convenience APIs) is enumerated in '
     'both tiers; multi-record lists put a length prefix or record end on every offset within +-4 of a 1012-byte payload '
     'boundary; content classes include 0x00/0x40 runs. File bytes are compared with ref.vbs / the blocked payload model and the '
-    'records read back (from the real and from the reference file, five writer idioms incl. close inside a with block; unblocked convenience reads leave the blocked argument out, also on fill-valued files that look blocked; the reader walked in eight styles incl. next-then-for and for/break/for) with the input; the live MAX_VBS_RECORD_LENGTH is also set to 3 000 / 6 500 / 10 000 at run time with records at the new maximum. Held on the executions produced.',
+    'records read back (from the real and from the reference file, five writer idioms incl. close inside a with block; unblocked convenience reads leave the blocked argument out, also on fill-valued files that look blocked; the reader walked in nine styles incl. next-then-for, for/break/for and a second reader on the rewound file object) with the input; the live MAX_VBS_RECORD_LENGTH is also set to 3 000 / 6 500 / 10 000 at run time with records at the new maximum. Held on the executions produced.',
     'Trusts vmon/ref/blocking.py, io.BytesIO. Records are non-empty and at most 6000 bytes.')
 
 reg('C09', 'fault_enumeration',
@@ -95,7 +95,7 @@ reg('C02', 'exploration',
     'C01 workload is reused and widened on the encode side (short fixed text, numbers as strings, decimals in exponent form, ISO date strings, empty/None '
     'values). Decode is judged on bytes produced by the reference encoder so a symmetric error cannot cancel. Over-long '
     'variable values (100..999 / 1000..5000 characters, text and bytes) must be refused while the longest representable '
-    'value still encodes. Text with a character the chosen encoding cannot express must be refused as well (every text element x five codec/character pairs). Every decoded dict without PDS data is fed back into dumps and must give the same wire image; dumps is also called from 6 threads at once (1 microsecond switch interval, inconclusive unless the calls alternated) and every result compared with the reference image. Held on the executions produced.',
+    'value still encodes. Text with a character the chosen encoding cannot express must be refused as well (every text element x five codec/character pairs). Messages are also encoded right after one with the same keys and other sizes under the same configuration object. Every decoded dict without PDS data is fed back into dumps and must give the same wire image; dumps is also called from 6 threads at once (1 microsecond switch interval, inconclusive unless the calls alternated) and every result compared with the reference image. Held on the executions produced.',
     'Trusts vmon/ref/codec.py (validated at setup against the wire images pinned by the repository tests), python codecs, re, strptime.')
 
 reg('C12', 'exploration',
@@ -103,7 +103,7 @@ reg('C12', 'exploration',
     'Boundary sweep enumerated completely in both tiers (first value length 940..992 x second 0..60 x third absent/0/1/30: the '
     'running carrier length crosses 985..1005 at every position), exact 999 fills, zero-length values, digit-only values that '
     'look like headers, sets needing exactly 1..5 carriers, seeded sets of up to 60 tags in shuffled insertion order, generated '
-    'configurations with other carrier bits and shuffled key order (a quarter of the cases on a throwaway copy of the configuration, an eighth on a copy used once and then edited so that a carrier moves to another element), latin_1 and EBCDIC. Held on the executions produced.',
+    'configurations with other carrier bits and shuffled key order (a quarter of the cases on a throwaway copy of the configuration, an eighth on a copy used once and then edited so that a carrier moves to another element), latin_1 and EBCDIC; every set is handed to dumps a second time as the same dict object (same bytes). Held on the executions produced.',
     'Trusts vmon/ref/codec.py (pack_pds, lenient decoder). PDS sets exceeding the configured carriers are outside the statement.')
 
 reg('C16', 'exploration',
@@ -121,7 +121,7 @@ reg('C17', 'exploration',
     'large, spanning the first block boundary, longer than the 2 500-byte sample, and a shape with 0x40-character text everywhere '
     'except under offset 1012; MTI digits varied, x {latin_1, ascii, cp1252, cp500, cp037, cp1140} x {VBS, '
     '1014}. Invalid classes: every length 0..23, the 24-byte header, first length max / max+1 (also with the configured maximum changed at run time to 24, 3 000 and 9 000), every bit 2..128 in the '
-    'first bitmap (alone and next to configured elements, bit 1 on and off), and six live edits of bit_config (elements given / deprived of a configuration after an earlier inspection). Unblocked files with 0x40 0x40 at bytes 1012-1013 are not judged on the blocking answer.',
+    'first bitmap (alone and next to configured elements, bit 1 on and off), writer files inspected through BytesIO, small-buffer BufferedReaders and a disk file; ten live edits of bit_config (four of them replacing the dict object) (elements given / deprived of a configuration after an earlier inspection). Unblocked files with 0x40 0x40 at bytes 1012-1013 are not judged on the blocking answer.',
     'Files come from the real IpmWriter under the packaged configuration; vmon/ref/codec.py is used only to size them.')
 
 reg('C07', 'fault_enumeration',
@@ -148,7 +148,7 @@ reg('C08', 'fault_enumeration',
 
 reg('C10', 'fault_enumeration',
     'runtime monitor: real IpmReader and the extraction tool run on files whose k-th record carries an injected fault; records delivered, exception attributes and the operator line observed for every k',
-    'n = 1..10 (quick) / 1..12, 17, 25, 40 (thorough) records x every position k x eight ways of walking the reader x eleven fault kinds (a record ending inside its own header, a bad decimal value under a caller-supplied configuration, truncated record, oversized '
+    'n = 1..10 (quick) / 1..12, 17, 25, 40 (thorough) records x every position k x eight ways of walking the reader x twelve fault kinds (an element deleted from a configuration object that has already read the file, a record ending inside its own header, a bad decimal value under a caller-supplied configuration, truncated record, oversized '
     'length, undecodable MTI (a quarter of the lists with records over 2 KB; truncation points: anywhere, straight after the length prefix, on a fill byte of a block, after two fill-valued data bytes; the context of a truncated record must be all its surviving bytes), unknown bitmap bit, bad field length, bad typed value, bad PDS content, bad ICC content, trailing '
     'bytes) x {VBS, 1014} x {latin_1, cp500}: exactly k-1 records equal to the strict reference decode, MciIpmDataError with '
     'record_number == k and binary_context_data == prefix + raw bytes of record k, and "Error detected in record k" printed by '
@@ -161,7 +161,7 @@ reg('C06', 'exploration',
     'codecs), VBS and 1014, packaged / variant / generated configurations, three writer APIs: file bytes equal the reference '
     'framing of the reference encodings, and the read-back list satisfies the C01 relation element-wise. Isolation: 2..4 reader '
     'and writer programs (some readers hit an injected fault) driven under seeded schedules at operation granularity, and 8 '
-    'threads with a 1 microsecond switch interval; 32 (thorough 192) fresh child processes whose first cardutil calls are the first records of 8 threads; a reader reading through another reader and a reader parked in its source while others must progress; two round trips of more than 1 and 2 MiB; throwaway configuration copies; files in which a blank fixed element makes one whole 1014 block equal to the fill; each instance\'s trace (records, record_number, last_record, error context, '
+    'threads with a 1 microsecond switch interval; 32 (thorough 192) fresh child processes whose first cardutil calls are the first records of 8 threads; a reader reading through another reader and a reader parked in its source while others must progress; two round trips of more than 1 and 2 MiB; throwaway configuration copies; files in which a blank fixed element makes one whole 1014 block equal to the fill; records with the same keys and other sizes next to each other; the reader walked with list, next-then-for and for/break/for; each instance\'s trace (records, record_number, last_record, error context, '
     'file bytes) must equal its solo trace. The run is inconclusive unless thread alternations were actually observed.',
     'Trusts vmon/ref/codec.py and vmon/ref/blocking.py. Each thread owns its files and message objects. Per-thread step counters.')
 
